@@ -66,7 +66,8 @@ Definition remove_policy (l : store) (r : rule) : store * bool :=
   | Some l' => (l', negb (has_policy l' r))
   end.
 
-(* ---- remove_policies (policy.py:228-238, repaired: checks the whole batch before removing) ---- *)
+(* ---- remove_policies (policy.py:228-238, repaired: the whole batch is checked before anything is
+   removed; a batch that repeats a rule is refused like an absent rule) ---- *)
 Fixpoint remove_present (l : store) (rules : list rule) : store :=
   match rules with
   | [] => l
@@ -77,7 +78,7 @@ Fixpoint remove_present (l : store) (rules : list rule) : store :=
   end.
 
 Definition remove_policies (l : store) (rules : list rule) : store * bool :=
-  if forallb (has_policy l) rules then (remove_present l rules, true) else (l, false).
+  if forallb (has_policy l) rules && nodupb rule_eqb rules then (remove_present l rules, true) else (l, false).
 
 (* ---- the filter predicate (policy.py:95-104, 262, 284) ---- *)
 (* all(value == "" or rule[field_index + i] == value for i, value in enumerate(field_values));
